@@ -50,9 +50,27 @@ fn open_gate() {
     GATE_CV.notify_all();
 }
 
-fn run_script(mut bag: Bag, script: Vec<Value>, hold: bool, depth: u32) {
+fn run_script(bag: Bag, script: Vec<Value>, hold: bool, depth: u32) {
+    run_script_c(bag, script, hold, depth, None)
+}
+/// `crash_after`: the actor's whole sim-process dies after that many operations (process actors only)
+fn run_script_c(mut bag: Bag, script: Vec<Value>, hold: bool, depth: u32, crash_after: Option<u64>) {
     wait_gate();
+    // which sim-process holds which handle matters once processes can die
+    let pid = sim::my_pid();
+    hist::log("actor.start", pid as i64, 0, 0, "");
+    for h in &bag.hs {
+        hist::log("adopt", h.hid as i64, h.chan as i64, pid as i64, "");
+    }
+    for r in &bag.rxs {
+        hist::log("adoptrx", r.0 as i64, pid as i64, 0, "");
+    }
+    let mut done_ops = 0u64;
     for op in script {
+        if crash_after == Some(done_ops) {
+            sim::crash_now();
+        }
+        done_ops += 1;
         let name = op[0].as_str().unwrap_or("");
         let k = op[1].as_u64().unwrap_or(0) as usize;
         match name {
@@ -247,6 +265,8 @@ enum LState {
     InFlight(i64, i64), // (carrier chan, mid)
     Dead(u64, u64),     // death interval (inv, ret)
     Forever,
+    /// a dead process was sending it when it died: it is either queued somewhere or gone
+    Unknown,
 }
 
 impl Scenario for C03S {
@@ -281,8 +301,11 @@ impl Scenario for C03S {
         let mut actors = vec![];
         for _ in 0..nact {
             let slen = r.range(2, 14);
+            let is_proc = variant != "inproc" && r.chance(1, 3);
             actors.push(json!({
-                "proc": variant != "inproc" && r.chance(1, 4),
+                "proc": is_proc,
+                // the actor's process dies (all its handles and receivers with it) after k operations
+                "crash_after": if is_proc && r.chance(1, 3) { json!(r.below(slen + 1)) } else { Value::Null },
                 "hold": r.chance(1, 8),
                 "script": gen_script(&mut r, slen, 0),
             }));
@@ -344,7 +367,8 @@ impl Scenario for C03S {
             let script: Vec<Value> = a["script"].as_array().cloned().unwrap_or_default();
             let hold = a["hold"].as_bool().unwrap_or(false);
             if a["proc"].as_bool().unwrap_or(false) && !cfg!(feature = "inproc") {
-                spawn_process(&format!("actor{}", i), (i + 1) as u32, bag, move |b: Bag| run_script(b, script, hold, 0));
+                let crash_after = a["crash_after"].as_u64();
+                spawn_process(&format!("actor{}", i), (i + 1) as u32, bag, move |b: Bag| run_script_c(b, script, hold, 0, crash_after));
             } else {
                 sim::spawn(&format!("actor{}", i), None, move || run_script(bag, script, hold, 0));
             }
@@ -364,14 +388,84 @@ impl Scenario for C03S {
         let mut late: std::collections::BTreeSet<i64> = Default::default();
         let mut possible_until: std::collections::BTreeMap<i64, u64> = Default::default();
         let mut clones = 0u64;
+        // owner (sim-process) of every held handle / carrier receiver, and which thread is in which process
+        let mut tid_pid: std::collections::BTreeMap<u16, i64> = Default::default();
+        let mut owner: std::collections::BTreeMap<i64, i64> = Default::default(); // hid -> pid
+        let mut rx_owner: std::collections::BTreeMap<i64, i64> = Default::default(); // chan -> pid
+        let mut crash_at: std::collections::BTreeMap<i64, u64> = Default::default(); // pid -> crash seq
         for e in evs {
             match e.op {
+                "actor.start" => {
+                    tid_pid.insert(e.tid, e.a);
+                },
+                "adopt" => {
+                    owner.insert(e.a, e.c);
+                },
+                "adoptrx" => {
+                    rx_owner.insert(e.a, e.b);
+                },
+                "crash" => {
+                    crash_at.insert(e.a, e.seq);
+                },
+                "crash.reaped" => {
+                    // everything the dead process held is gone: possibly from the crash on, certainly now
+                    let pid = e.a;
+                    let c = crash_at.get(&pid).copied().unwrap_or(e.seq);
+                    for (h, l) in lin.iter_mut() {
+                        if owner.get(h) == Some(&pid) && l.1 == LState::Held {
+                            l.1 = LState::Dead(c, e.seq);
+                        }
+                    }
+                    // a send that the dead process had in progress is over now, whatever it did
+                    let dead_tids: Vec<u16> = tid_pid.iter().filter(|(_, p)| **p == pid).map(|(t, _)| *t).collect();
+                    let stale: Vec<(u16, &'static str)> = pending_inv.keys().filter(|k| dead_tids.contains(&k.0)).cloned().collect();
+                    for k in stale {
+                        pending_inv.remove(&k);
+                    }
+                    for (h, pu) in possible_until.iter_mut() {
+                        if *pu == u64::MAX && owner.get(h) == Some(&pid) {
+                            *pu = e.seq;
+                        }
+                    }
+                    // a handle the dead process was moving (embed in progress, not completed): if it is not
+                    // queued anywhere it died with the process
+                    for (h, l) in lin.iter_mut() {
+                        if let LState::InFlight(_, mid) = l.1 {
+                            if owner.get(h) == Some(&pid) && !embed_done.contains(&mid) {
+                                // the packet may or may not have been queued: possibly alive, never
+                                // certainly alive and never certainly dead
+                                l.1 = LState::Unknown;
+                            }
+                        }
+                    }
+                    // carrier receivers it held die with their queues
+                    let dead_rx: Vec<i64> = rx_owner.iter().filter(|(_, p)| **p == pid).map(|(c, _)| *c).collect();
+                    for ch in dead_rx {
+                        if droprx.contains_key(&ch) {
+                            continue;
+                        }
+                        droprx.insert(ch, (c, e.seq));
+                        for (_h, l) in lin.iter_mut() {
+                            if let LState::InFlight(cc, mid) = l.1 {
+                                if cc == ch {
+                                    l.1 = LState::Dead(c, e.seq);
+                                    if !embed_done.contains(&mid) {
+                                        late.insert(mid);
+                                    }
+                                }
+                            }
+                        }
+                    }
+                },
                 "create" => {
                     lin.insert(e.a, (e.b, LState::Held));
                 },
                 "clone.ret" => {
                     clones += 1;
                     lin.insert(e.c, (e.b, LState::Held));
+                    if let Some(p) = tid_pid.get(&e.tid) {
+                        owner.insert(e.c, *p);
+                    }
                 },
                 "drop.inv" | "droprx.inv" => {
                     pending_inv.insert((e.tid, e.op), e.seq);
@@ -418,8 +512,11 @@ impl Scenario for C03S {
                     if let Some(l) = lin.get_mut(&e.c) {
                         l.1 = LState::Held;
                     }
+                    // whoever extracted it holds it now (observers live in process 0)
+                    owner.insert(e.c, tid_pid.get(&e.tid).copied().unwrap_or(0));
                 },
                 "droprx.ret" => {
+                    rx_owner.remove(&e.a);
                     let inv = pending_inv.remove(&(e.tid, "droprx.inv")).unwrap_or(e.seq);
                     droprx.insert(e.a, (inv, e.seq));
                     for (_h, l) in lin.iter_mut() {
@@ -475,6 +572,7 @@ impl Scenario for C03S {
                 for (h, l) in &my_lin {
                     match l.1 {
                         LState::Dead(inv, _) if inv <= t => {},
+                        LState::Unknown => {},
                         _ => return Some(**h),
                     }
                 }
